@@ -100,6 +100,10 @@ def main():
             'technique': tech,
         })
     na = [{'property_id': p, 'reason': r} for p, r in NOT_APPLICABLE if p not in claimed]
+    listed = set(x['property_id'] for x in na) | set(claimed)
+    for p in sorted(CLAIM_TEXT):
+        if p not in listed:
+            na.append({'property_id': p, 'reason': 'planned in DESIGN.md section 4 but its units are not built in this commit; not claimed until they are'})
     manifest = {
         'version': 1,
         'setup_cmd': './setup.sh',
